@@ -2,9 +2,14 @@
    hide it.  Statement only.  The loop is Sem.scan_loop (ObjectHeaderBase::read as written: 4-byte
    reads, the three seek-back rules, stale tmp after short reads) over the in-memory stream model;
    the signature and the rules are regenerated from the source on every run (Inst/ScanEq.v).
-   PARTIAL: that File's object loop then delivers exactly the known objects around unknown-type
-   objects is decided by the correspondence run on hand-assembled streams, not by a theorem. *)
+   C09_unknown_objects_skipped (Inst/UnknownEq.v): the parser stage of the file model over ANY sequence of well-formed known
+   objects and unknown-type objects (any code the factory does not know, any payload — images of known objects included —, any
+   declared header size / version, declared size = actual size >= 16) delivers exactly the known ones, as written, in order.
+   PARTIAL: filler bytes BETWEEN objects in the object loop (the search theorem covers them at the level of the search), unknown
+   objects whose declared size is not their actual size, and the real reader against the model are decided by the
+   correspondence run on hand-assembled streams. *)
 From VB Require Import Base IR Sem BaseFacts StreamFacts ScanFacts.
+From VB Require Import FileModel FileDefs StreamRT UnknownEq.
 From VB Require Import Classes Consts Common ScanEq.
 Local Open Scope Z_scope.
 
@@ -30,3 +35,16 @@ Proof.
   unfold s_data. rewrite rev_append_rev, app_length, Ha, !app_length. lia.
 Qed.
 Print Assumptions C09_fuel_suffices.
+
+(* unknown-type objects are skipped as a whole, the known objects around them are delivered as written *)
+Theorem C09_unknown_objects_skipped : forall items, Forall item_ok items ->
+  let U := concat (map item_bytes items) in
+  exists ds, Forall2 same_obj (knowns items) ds /\
+    obj_loop cs scan_p default_cap factory_table C_ohb fid_objectSize fid_objectType (2 * length U + 16) (mk_ustream U) [] 0 =
+      (ds, fold_left (fun c o => next_count o c) (knowns items) 0, EndException).
+Proof. exact mixed_stream. Qed.
+Print Assumptions C09_unknown_objects_skipped.
+
+(* non-vacuity: an unknown object whose payload starts with the signature; a known object (StreamRT.ex_can_ok) *)
+Example C09_unknown_example : uobj_ok {| u_hsz := 32; u_hver := 7; u_osz := 24; u_type := 200; u_payload := [76; 79; 66; 74; 1; 2; 3; 4] |}.
+Proof. exact ex_unknown. Qed.
